@@ -1,0 +1,80 @@
+//go:build verif
+
+package rescache
+
+import (
+	"github.com/resgateio/resgate/logger"
+	"github.com/resgateio/resgate/server/codec"
+)
+
+// Verification hooks (build tag verif).
+
+// VerifLCS exposes lcs.
+func VerifLCS(a, b []codec.Value) []*ResourceEvent {
+	return lcs(a, b)
+}
+
+type verifSub struct {
+	events []*ResourceEvent
+}
+
+func (s *verifSub) CID() string                             { return "verif" }
+func (s *verifSub) Loaded(_ *ResourceSubscription, _ error) {}
+func (s *verifSub) Event(ev *ResourceEvent)                 { s.events = append(s.events, ev) }
+func (s *verifSub) ResourceName() string                    { return "verif.res" }
+func (s *verifSub) ResourceQuery() string                   { return "" }
+func (s *verifSub) Reaccess(_ *Throttle)                    {}
+
+func verifRS(l logger.Logger) (*ResourceSubscription, *verifSub) {
+	c := &Cache{logger: l, depLogged: make(map[string]featureType)}
+	e := &EventSubscription{ResourceName: "verif.res", cache: c, count: 1}
+	rs := newResourceSubscription(e, "")
+	e.base = rs
+	sub := &verifSub{}
+	rs.subs[sub] = struct{}{}
+	return rs, sub
+}
+
+// VerifResetCollection runs processResetCollection on a cached collection with one subscriber
+// and returns the events delivered to the subscriber, the resulting collection and version.
+func VerifResetCollection(l logger.Logger, old, new []codec.Value) ([]*ResourceEvent, []codec.Value, uint) {
+	rs, sub := verifRS(l)
+	rs.state = stateCollection
+	rs.collection = &Collection{Values: old}
+	rs.e.mu.Lock()
+	rs.processResetCollection(new)
+	rs.e.mu.Unlock()
+	return sub.events, rs.collection.Values, rs.version
+}
+
+// VerifResetModel runs processResetModel on a cached model with one subscriber and returns
+// the events delivered to the subscriber, the resulting model and version.
+func VerifResetModel(l logger.Logger, old, new map[string]codec.Value) ([]*ResourceEvent, map[string]codec.Value, uint) {
+	rs, sub := verifRS(l)
+	rs.state = stateModel
+	rs.model = &Model{Values: old}
+	rs.e.mu.Lock()
+	rs.processResetModel(new)
+	rs.e.mu.Unlock()
+	return sub.events, rs.model.Values, rs.version
+}
+
+// VerifHandleEvent applies one event to a cached model (isModel) or collection with one
+// subscriber; returns delivered events, resulting values and version.
+func VerifHandleEvent(l logger.Logger, model map[string]codec.Value, coll []codec.Value, isModel bool, event string, payload []byte) ([]*ResourceEvent, map[string]codec.Value, []codec.Value, uint) {
+	rs, sub := verifRS(l)
+	if isModel {
+		rs.state = stateModel
+		rs.model = &Model{Values: model}
+	} else {
+		rs.state = stateCollection
+		rs.collection = &Collection{Values: coll}
+	}
+	rs.e.mu.Lock()
+	rs.handleEvent(&ResourceEvent{Event: event, Payload: payload})
+	rs.e.mu.Unlock()
+	if isModel {
+		return sub.events, rs.model.Values, nil, rs.version
+	}
+	return sub.events, nil, rs.collection.Values, rs.version
+}
